@@ -18,6 +18,16 @@ def record(progs, wd, prof, tag="vm"):
     write_scenarios(progs, inp)
     outp = os.path.join(wd, "%s_%s.rec" % (tag, prof))
     run_harness(prof, ["record-vm", inp, outp])
+    # vacuity guard: a generated program that does not assemble would be skipped silently by the trace validation
+    bad = []
+    with open(outp) as f:
+        for line in f:
+            if '"e":"pre"' in line[:400] and '"mast"' not in line[:2000] and '"outcome"' in line:
+                ev = json.loads(line)
+                if "mast" not in ev:
+                    bad.append((ev.get("id"), str(ev.get("outcome"))[:200]))
+    if bad:
+        raise ToolError("%d generated program(s) do not assemble, e.g. #%s: %s | %s" % (len(bad), bad[0][0], bad[0][1], progs[bad[0][0]]["src"][:200].replace("\n", " ")))
     return outp
 
 
